@@ -779,7 +779,7 @@ do_op(const struct op *o, int idx)
 
         if (!path || (!par && slot[s])) return -1;
         if ((at < 1) || (at > 3)) at = 1;       /* STRING / XML / JSON */
-        rc = lyd_new_path2(par, ctx, path, val, vl * 8, (LYD_ANYDATA_VALUETYPE)at, opts, &np, &nn);
+        rc = lyd_new_path2(par, ctx, path, val, vl, (LYD_ANYDATA_VALUETYPE)at, opts, &np, &nn);
         if (rc && (np || nn)) n_onn++;
         if (slot[s]) {
             slot[s] = home(slot[s]);
@@ -1584,9 +1584,10 @@ main(void)
             }
             if (WIFSIGNALED(st)) {
                 fprintf(stderr, "\nVERIF ERROR: history killed by signal %d%s\n", WTERMSIG(st), WTERMSIG(st) == SIGALRM ? " (timeout)" : "");
-                return 128 + WTERMSIG(st);
+                _exit(128 + WTERMSIG(st));
             }
-            return WEXITSTATUS(st);
+            /* no exit-time leak check of the parent: its report would bury the child's */
+            _exit(WEXITSTATUS(st));
         } else if (!strcmp(op, "schema") && (r.ntok == 4)) {
             int cnt = 0, i;
             const char *const *mods = schema_set(atoi(r.tok[3]), &cnt);
